@@ -11,6 +11,9 @@
 //!              find a server and deliver the compiler's true result
 //!   poison   one fresh real server; well-formed but unservable compile requests (real client or hand-built
 //!            frame) followed by ordinary requests for the same compiler from other connections
+//!   vanish   a DAEMONISED real server (started by `sccache --start-server`, pid found through /proc); a peer sends a
+//!            complete well-formed Compile request and then closes / resets / half-closes, before or after the
+//!            acknowledgement, while a bystander's compile is in flight; the same server process must survive
 //!   kill     a LIVE real server SIGKILLed at a scripted phase of a request (the wrapper compiler tells us
 //!            through a fifo that the phase has been reached), then a second compile with no server running
 use sccache::verif_hooks::protocol::{
@@ -315,7 +318,7 @@ fn write_wrapper(dir: &Path) -> PathBuf {
     write_exec(
         &w,
         &format!(
-            "#!/bin/sh\nD='{d}'\nif [ -n \"$C11_FAIL\" ]; then echo 'wrapper: told to fail' >&2; exit 1; fi\nhas_e=0\nhas_src=0\nfor a in \"$@\"; do\n  case \"$a\" in\n    -E) has_e=1 ;;\n    *unit.c) has_src=1 ;;\n  esac\ndone\nphase=other\nif [ $has_e = 1 ] && [ $has_src = 0 ]; then phase=detect; fi\nif [ $has_e = 1 ] && [ $has_src = 1 ]; then phase=preprocess; fi\nif [ $has_e = 0 ] && [ $has_src = 1 ]; then phase=compile; fi\nT=\"${{C11_TAG:-x}}\"\necho \"$phase $PPID\" >> \"$D/phases.log\"\nif mv \"$D/arm-$phase-$T\" \"$D/fired-$phase-$T\" 2>/dev/null; then\n  echo \"$$\" > \"$D/fifo\"\n  exec sleep 600\nfi\nexec /usr/bin/gcc \"$@\"\n",
+            "#!/bin/sh\nD='{d}'\nif [ -n \"$C11_FAIL\" ]; then echo 'wrapper: told to fail' >&2; exit 1; fi\nhas_e=0\nhas_src=0\nfor a in \"$@\"; do\n  case \"$a\" in\n    -E) has_e=1 ;;\n    *unit.c) has_src=1 ;;\n  esac\ndone\nphase=other\nif [ $has_e = 1 ] && [ $has_src = 0 ]; then phase=detect; fi\nif [ $has_e = 1 ] && [ $has_src = 1 ]; then phase=preprocess; fi\nif [ $has_e = 0 ] && [ $has_src = 1 ]; then phase=compile; fi\nT=\"${{C11_TAG:-x}}\"\necho \"$phase $PPID\" >> \"$D/phases.log\"\nif mv \"$D/arm-$phase-$T\" \"$D/fired-$phase-$T\" 2>/dev/null; then\n  echo \"$$\" > \"$D/fifo\"\n  exec sleep 600\nfi\nif mv \"$D/hold-$phase-$T\" \"$D/held-$phase-$T\" 2>/dev/null; then\n  echo \"$$\" > \"$D/fifo\"\n  read _ < \"$D/release-$T\"\nfi\nexec /usr/bin/gcc \"$@\"\n",
             d = dir.display()
         ),
     );
@@ -1103,6 +1106,233 @@ fn run_poison_case(case: &Sx) -> Sx {
     Sx::L(out)
 }
 
+// ------------------------------------------------------------------ leg vanish
+
+fn server_pids(dir: &Path) -> Vec<i32> {
+    let needle = format!("SCCACHE_DIR={}", dir.join("cache").display());
+    let mut v = vec![];
+    if let Ok(rd) = std::fs::read_dir("/proc") {
+        for e in rd.flatten() {
+            let pid: i32 = match e.file_name().to_string_lossy().parse() {
+                Ok(p) => p,
+                Err(_) => continue,
+            };
+            let env = match std::fs::read(e.path().join("environ")) {
+                Ok(b) => b,
+                Err(_) => continue,
+            };
+            let has = |k: &str| env.split(|&b| b == 0).any(|kv| kv == k.as_bytes());
+            if !(has(&needle) && has("SCCACHE_START_SERVER=1")) {
+                continue;
+            }
+            let comm = std::fs::read_to_string(e.path().join("comm")).unwrap_or_default();
+            if comm.trim() != "sccache" {
+                continue; // compilers started by the server inherit its environment
+            }
+            let stat = std::fs::read_to_string(e.path().join("stat")).unwrap_or_default();
+            let state = stat.rsplit(')').next().unwrap_or("").trim().chars().next().unwrap_or('?');
+            if state != 'Z' {
+                v.push(pid);
+            }
+        }
+    }
+    v.sort();
+    v
+}
+
+fn get_compile_requests(port: u16) -> Option<u64> {
+    let mut s = TcpStream::connect(("127.0.0.1", port)).ok()?;
+    s.set_read_timeout(Some(FAILSAFE)).unwrap();
+    s.write_all(&frame(&verif_encode_request(&Request::GetStats))).ok()?;
+    match read_frame(&mut s).and_then(|p| verif_decode_response(&p)) {
+        Some(Response::Stats(info)) => Some(info.stats.compile_requests),
+        _ => None,
+    }
+}
+
+fn outq(s: &TcpStream) -> i32 {
+    let mut n: libc::c_int = 0;
+    unsafe {
+        libc::ioctl(s.as_raw_fd(), libc::TIOCOUTQ, &mut n);
+    }
+    n
+}
+
+fn run_vanish_case(case: &Sx) -> Sx {
+    let behaviour = case.arg(0).str(); // close | reset | half_close
+    let after_started = case.arg(1).is_sym("after_started");
+    let dir = scratch("vh-c11s-");
+    let d = dir.path().to_path_buf();
+    let port = free_port();
+    let wrapper = write_wrapper(&d);
+    mkfifo(&d.join("fifo"));
+    mkfifo(&d.join("release-b"));
+    mkfifo(&d.join("release-v"));
+    let mut fifo = open_rdwr_nonblock(&d.join("fifo"));
+    let mut rel_b = open_rdwr_nonblock(&d.join("release-b"));
+    let mut rel_v = open_rdwr_nonblock(&d.join("release-v"));
+    let cleanup = |d: &Path| {
+        let mut stop = base_cmd(d);
+        server_env(&mut stop, d, port, DEFAULT_CAP_BYTES);
+        let _ = stop.arg("--stop-server").stdout(Stdio::null()).stderr(Stdio::null()).status();
+        scan_and_kill_everything(d);
+    };
+    // the way real use starts it: `sccache --start-server` forks a daemon (daemonize() runs)
+    let mut start = base_cmd(&d);
+    server_env(&mut start, &d, port, DEFAULT_CAP_BYTES);
+    let st = start.current_dir(&d).arg("--start-server").stdout(Stdio::null()).stderr(Stdio::null()).status();
+    let pids = server_pids(&d);
+    if !matches!(st, Ok(ref x) if x.success()) || pids.len() != 1 {
+        cleanup(&d);
+        return Sx::L(vec![Sx::sym("harness_problem"), Sx::sym("daemon_did_not_start")]);
+    }
+    let pid = pids[0];
+    let alive = |pid: i32| server_pids(&d).contains(&pid);
+    let log_path = d.join("phases.log");
+    let client = |tag: &str, work: &Path| {
+        let mut c = base_cmd(&d);
+        server_env(&mut c, &d, port, DEFAULT_CAP_BYTES);
+        c.env("C11_TAG", tag)
+            .current_dir(work)
+            .arg(&wrapper)
+            .args(["-c", "unit.c", "-o", "unit.o"])
+            .stdout(Stdio::piped())
+            .stderr(Stdio::piped());
+        c
+    };
+    let mut announced = 0usize;
+    let mut wait_announce = |want: usize, fifo: &mut std::fs::File| {
+        let t0 = Instant::now();
+        let mut buf = [0u8; 64];
+        while announced < want && t0.elapsed() < Duration::from_secs(30) {
+            match fifo.read(&mut buf) {
+                Ok(n) if n > 0 => announced += buf[..n].iter().filter(|&&b| b == b'\n').count(),
+                _ => {
+                    if !alive(pid) {
+                        return;
+                    }
+                    std::thread::sleep(Duration::from_millis(2));
+                }
+            }
+        }
+    };
+    // warm-up: the compiler is detected, so the acknowledgement of later requests is written at once
+    let w0 = d.join("w0");
+    let r0 = make_unit(&w0, 400);
+    let warm = client("w", &w0).spawn().ok().and_then(|c| observe_client(c, &log_path, &w0, &r0));
+    if !matches!(warm, Some(ref o) if o.code == 0 && o.ran == 0) {
+        cleanup(&d);
+        return Sx::L(vec![Sx::sym("harness_problem"), Sx::sym("warm_up_failed")]);
+    }
+    // the bystander: its compile is in flight on the server (held in the compiler) during everything below
+    let wb = d.join("wb");
+    let rb = make_unit(&wb, 401);
+    std::fs::write(d.join("hold-compile-b"), "").unwrap();
+    let bystander = client("b", &wb).spawn().expect("spawn bystander");
+    wait_announce(1, &mut fifo);
+    // the peer: a COMPLETE well-formed Compile request, then it goes away
+    let wv = d.join("wv");
+    let _rv = make_unit(&wv, 402);
+    std::fs::write(d.join("hold-compile-v"), "").unwrap();
+    let req = Request::Compile(Compile {
+        exe: wrapper.as_os_str().to_owned(),
+        cwd: wv.as_os_str().to_owned(),
+        args: vec!["-c".into(), "unit.c".into(), "-o".into(), "unit.o".into()],
+        env_vars: vec![
+            ("PATH".into(), "/usr/local/bin:/usr/bin:/bin".into()),
+            ("C11_TAG".into(), "v".into()),
+            // only so that a compiler left behind by a failing case is found by the final /proc sweep
+            ("SCCACHE_DIR".into(), d.join("cache").into_os_string()),
+        ],
+    });
+    let bytes = frame(&verif_encode_request(&req));
+    let mut peer_saw = "none";
+    let mut kept: Option<TcpStream> = None;
+    if let Ok(mut s) = TcpStream::connect(("127.0.0.1", port)) {
+        s.set_read_timeout(Some(Duration::from_secs(30))).unwrap();
+        let cork = |s: &TcpStream, on: libc::c_int| unsafe {
+            libc::setsockopt(
+                s.as_raw_fd(),
+                libc::IPPROTO_TCP,
+                libc::TCP_CORK,
+                &on as *const _ as *const libc::c_void,
+                std::mem::size_of::<libc::c_int>() as libc::socklen_t,
+            );
+        };
+        if !after_started && behaviour == "close" {
+            cork(&s, 1); // request and FIN leave together: the peer is gone before anything is written to it
+        } else {
+            s.set_nodelay(true).unwrap();
+        }
+        let _ = s.write_all(&bytes);
+        if after_started {
+            if let Some(p) = read_frame(&mut s) {
+                if response_kind(&p) == ("compile", true) {
+                    peer_saw = "started";
+                }
+            }
+        }
+        match behaviour.as_str() {
+            "close" => drop(s),
+            "reset" => {
+                let t0 = Instant::now();
+                while outq(&s) > 0 && t0.elapsed() < FAILSAFE {
+                    std::thread::sleep(Duration::from_millis(1));
+                }
+                set_linger0(&s);
+                drop(s);
+            }
+            _ => {
+                let _ = s.shutdown(std::net::Shutdown::Write);
+                kept = Some(s);
+            }
+        }
+    }
+    wait_announce(2, &mut fifo);
+    // let the peer's compile finish: the server now writes CompileFinished to a peer that is gone
+    let _ = rel_v.write_all(b"g\n");
+    let t0 = Instant::now();
+    while !wv.join("unit.o").exists() && t0.elapsed() < Duration::from_secs(30) && alive(pid) {
+        std::thread::sleep(Duration::from_millis(2));
+    }
+    if let Some(mut s) = kept.take() {
+        // a half-closing peer still reads: it must get its answers
+        let mut kinds = vec![];
+        while let Some(p) = read_frame(&mut s) {
+            kinds.push(response_kind(&p).0);
+        }
+        peer_saw = match (peer_saw, kinds.as_slice()) {
+            ("none", ["compile", "finished"]) | ("started", ["finished"]) => "both",
+            ("none", ["compile"]) => "started",
+            (x, []) => x,
+            _ => "unexpected",
+        };
+    }
+    let _ = get_compile_requests(port); // a round trip through the server's event loop
+    let _ = rel_b.write_all(b"g\n");
+    let ob = observe_client(bystander, &log_path, &wb, &rb);
+    // a later ordinary client
+    let wf = d.join("wf");
+    let rf = make_unit(&wf, 403);
+    let of = client("f", &wf).spawn().ok().and_then(|c| observe_client(c, &log_path, &wf, &rf));
+    let same_server = alive(pid) && server_pids(&d) == vec![pid];
+    let count = if same_server { get_compile_requests(port) } else { None };
+    cleanup(&d);
+    let served = |o: &Option<Observed>| match o {
+        Some(o) if o.kind == "finished" && o.code == 0 && o.obj_ok && o.ran == 0 => Sx::sym("served"),
+        Some(o) if o.ran > 0 => Sx::sym("local_fallback"),
+        Some(o) => Sx::B(format!("other_{}_{}_{}", o.kind, o.why, o.code).into_bytes()),
+        None => Sx::sym("hung"),
+    };
+    Sx::L(vec![
+        Sx::bool(same_server),
+        count.map(Sx::n).unwrap_or(Sx::sym("no_answer")),
+        served(&ob),
+        served(&of),
+        Sx::sym(peer_saw),
+    ])
+}
+
 fn main() {
     vh::quiet_panics();
     let leg = std::env::args().nth(1).unwrap_or_default();
@@ -1116,6 +1346,8 @@ fn main() {
         "server" => vh::catch(|| run_server_case(&mut live, &mut counter, case))
             .unwrap_or_else(|e| Sx::L(vec![Sx::sym("harness_panic"), Sx::B(e.into_bytes())])),
         "kill" => vh::catch(|| run_kill_case(case))
+            .unwrap_or_else(|e| Sx::L(vec![Sx::sym("harness_panic"), Sx::B(e.into_bytes())])),
+        "vanish" => vh::catch(|| run_vanish_case(case))
             .unwrap_or_else(|e| Sx::L(vec![Sx::sym("harness_panic"), Sx::B(e.into_bytes())])),
         "coldstart" => vh::catch(|| run_coldstart_case(case))
             .unwrap_or_else(|e| Sx::L(vec![Sx::sym("harness_panic"), Sx::B(e.into_bytes())])),
